@@ -10,7 +10,7 @@ import walk_gen
 
 META = {
     'theorem_files': ['Props/C10.v'],
-    'theorems': ['C10_copy_is_fresh', 'C10_copy_looks_the_same', 'C10_delete_in_copy_leaves_original', 'C10_set_value_in_copy_leaves_original', 'C10_queries_agree', 'C10_set_value_frame', 'C10_set_then_get'],
+    'theorems': ['C10_copy_is_fresh', 'C10_copy_looks_the_same', 'C10_delete_in_copy_leaves_original', 'C10_set_value_in_copy_leaves_original', 'C10_queries_agree', 'C10_set_value_frame', 'C10_set_then_get', 'C10_add_segment_placement', 'C10_add_segment_heap', 'C10_insert_by_pos_sorted', 'C10_add_segment_once', 'C10_delete_laws'],
     'trusted_base': [
         'Coq 8.16.1 kernel; no native_compute',
         'Model/Context.v (+ CtxReader, Segment, Path): hand transcription of the X12DataNode API of x12context.py — tied by this run '
